@@ -88,3 +88,35 @@ def materialise(table, path, fmt, row_group=None):
 
 def rng_from(seed, *salt):
     return random.Random(f"{seed}|{'|'.join(map(str, salt))}")
+
+
+# ----------------------------------------------------------------- entropy seam
+# `np.random.default_rng(None)` seeds itself from the operating system.  That is a source of nondeterminism like any
+# other (a run that forgets to thread its seed through behaves differently every time), so it goes behind a seam:
+# unseeded generators draw their seed from a simulator-owned stream that is re-seeded per scenario.  Two executions
+# inside one scenario still get *different* entropy (as in reality), but a replay gets the same sequence again.
+_ENTROPY = random.Random(0)
+_ORIG_DEFAULT_RNG = None
+ENTROPY_DRAWS = {"n": 0}
+
+
+def seed_entropy(seed):
+    _ENTROPY.seed(f"entropy|{seed}")
+    ENTROPY_DRAWS["n"] = 0
+
+
+def install_entropy_seam():
+    global _ORIG_DEFAULT_RNG
+    import numpy as np
+
+    if _ORIG_DEFAULT_RNG is not None:
+        return
+    _ORIG_DEFAULT_RNG = np.random.default_rng
+
+    def default_rng(seed=None, *a, **kw):
+        if seed is None:
+            ENTROPY_DRAWS["n"] += 1
+            seed = _ENTROPY.getrandbits(64)
+        return _ORIG_DEFAULT_RNG(seed, *a, **kw)
+
+    np.random.default_rng = default_rng
